@@ -254,3 +254,16 @@ void fibre_eventq_release(fibre_eventq_t *evtq, void *evtp)
 {
 	messageq_release(&evtq->eventq, evtp);
 }
+
+#ifdef LIBRFN_VERIF
+/* Verification hook (compiled only with -DLIBRFN_VERIF): return the static
+ * scheduler state to its initial value so that independent histories can be
+ * run one after another in a single process.
+ */
+void fibre_verif_reset(void)
+{
+	memset(&kernel, 0, sizeof(kernel));
+	messageq_init(&kernel.atomic_runq, atomic_runq_buf,
+		      sizeof(atomic_runq_buf), sizeof(atomic_runq_buf[0]));
+}
+#endif
